@@ -1,6 +1,7 @@
 /- C12 line-protocol driver: `lake env lean --run Verif/C12/Driver.lean` -/
 import Verif.Common.Proto
 import Verif.C12.Model
+import Verif.C12.Compose
 open Lean Verif.Proto Verif.C12
 
 namespace Verif.C12.Driver
@@ -109,7 +110,114 @@ def obs (watch : List Name) (r : Dir × Option Err) : Json :=
     ("schema", match d.schema with | none => Json.null | some s => jList Json.str s.names),
     ("rels", Json.arr rels.toArray)]
 
-def handle (j : Json) : Except String Json := do
+/-! ### the composed model (C11 select + C09 files), same requests -/
+
+open Verif.C12.Compose in
+def ofFileC (j : Json) : Except String (Option C09.File) :=
+  match j with
+  | Json.null => pure none
+  | _ => do
+    let rows ← (← getArr j "rows").mapM (fun r => do (← r.getArr?).toList.mapM ofOptCps)
+    -- the harness plants files with its own encoder: `'@'.join(escape(v or ''))`
+    pure (some { lines := rows.map C08.joinRaw, mtime := ← getNat j "mt" })
+
+def ofFilesC (j : Json) : Except String C09.Files := do
+  let l ← (← j.getArr?).toList.mapM (fun t => do
+    let r : C09.Rel := { tx := ← ofFileC (← t.getObjVal? "tx"), gz := ← ofFileC (← t.getObjVal? "gz") }
+    pure ((← getStr t "name").toList, r))
+  pure (fun n => (l.lookup n).getD {})
+
+def ofDirC (j : Json) : Except String Compose.CDir :=
+  match j with
+  | Json.null => pure { schema := none, files := fun _ => {} }
+  | _ => do pure { schema := ← ofOptSchema j "schema", files := ← ofFilesC (← j.getObjVal? "files") }
+
+def ofOp (s : String) : Except String C11.Op :=
+  match s with
+  | "==" => pure .eq | "=" => pure .eq | "!=" => pure .ne | "<" => pure .lt | "<=" => pure .le
+  | ">" => pure .gt | ">=" => pure .ge | "~" => pure .re | "!~" => pure .nre
+  | _ => throw s!"bad operator {s}"
+
+def ofColRef (s : String) : C11.ColRef :=
+  match s.splitOn "." with
+  | [c] => ⟨"", c⟩
+  | parts => ⟨".".intercalate parts.dropLast, parts.getLast!⟩
+
+def ofLit (j : Json) : Except String C11.Lit :=
+  match j.getObjVal? "int" with
+  | .ok v => do pure (.int (← v.getInt?))
+  | .error _ => do pure (.str (← getCps j "str"))
+
+/-- the condition tree as the harness generated it: `["cmp", op, col, lit] | ["not", c] | ["and"|"or", [c…]]` -/
+partial def ofCond (j : Json) : Except String (C11.Cond C11.ColRef) := do
+  let a ← j.getArr?
+  match a.toList with
+  | [Json.str "cmp", Json.str op, Json.str col, lit] => pure (.leaf (← ofOp op) (ofColRef col) (← ofLit lit))
+  | [Json.str "not", c] => pure (.not (← ofCond c))
+  | [Json.str "and", cs] => pure (.and (← (← cs.getArr?).toList.mapM ofCond))
+  | [Json.str "or", cs] => pure (.or (← (← cs.getArr?).toList.mapM ofCond))
+  | _ => throw "bad condition"
+
+/-- `re.search` as a table (parameter, as in C11) -/
+def ofRx (j : Json) : Except String (List (List Char × List Char × Bool)) := do
+  (← j.getArr?).toList.mapM (fun t => do pure (← getCps t "p", ← getCps t "s", ← getBool t "m"))
+
+def rxOf (tbl : List (List Char × List Char × Bool)) (p v : List Char) : Bool :=
+  match tbl.find? (fun t => t.1 = p && t.2.1 = v) with
+  | some t => t.2.2
+  | none => false
+
+def obsC (watch : List Name) (r : Compose.CDir × Option Err) : Json :=
+  let d := r.1
+  let rels := watch.map (fun n =>
+    let rf := d.files n.toList
+    let rows : Json := match d.schema with
+      | none => Json.null
+      | some s =>
+        if s.names.contains n && rf.read.isSome then
+          match C09.readRaw rf with
+          | .ok rs => jList (jList optCps) rs
+          | .error _ => Json.str "unreadable"
+        else Json.null
+    Json.mkObj [("name", Json.str n), ("tx", Json.bool rf.tx.isSome), ("gz", Json.bool rf.gz.isSome),
+                ("rows", rows)])
+  Json.mkObj [
+    ("res", Json.str (match r.2 with | none => "ok" | some e => errTag e)),
+    ("schema", match d.schema with | none => Json.null | some s => jList Json.str s.names),
+    ("rels", Json.arr rels.toArray)]
+
+/-- the composed answer, or `none` when the case is outside what C08/C09/C11 model -/
+def handleComposed (j : Json) : Except String (Option Json) := do
+  let op ← getStr j "op"
+  let watch ← (← getArr j "watch").mapM (·.getStr?)
+  let dst ← ofDirC (← j.getObjVal? "dst")
+  let schema ← ofOptSchema j "schema"
+  let gzip ← getBool j "gzip"
+  let skeleton ← getBool j "skeleton"
+  match op with
+  | "db" =>
+    let src ← ofDirC (← j.getObjVal? "src")
+    if !Compose.composable src.schema schema then return none
+    let cond ← match j.getObjVal? "cond" with
+      | .ok Json.null => pure none
+      | .error _ => pure none
+      | .ok c => do pure (some (← ofCond c))
+    let tbl ← match j.getObjVal? "rx" with
+      | .ok v => ofRx v
+      | .error _ => pure []
+    let p : Compose.CParams := { schema := schema, cond := cond, full := ← getBool j "full", gzip := gzip,
+                                 skeleton := skeleton }
+    let r := Compose.mkprofDbC (rxOf tbl) MID src dst p
+    if r.2 = some .unmodelled then return none
+    pure (some (obsC watch r))
+  | "refresh" =>
+    if !Compose.composable dst.schema schema then return none
+    let r := Compose.mkprofRefreshC MID dst schema gzip skeleton
+    if r.2 = some .unmodelled then return none
+    pure (some (obsC watch r))
+  | _ => pure none
+
+def handleParam (j : Json) : Except String Json := do
   let op ← getStr j "op"
   let watch ← (← getArr j "watch").mapM (·.getStr?)
   let dst ← ofDir (← j.getObjVal? "dst")
@@ -128,6 +236,16 @@ def handle (j : Json) : Except String Json := do
     let lines ← (← getArr j "lines").mapM ofCps
     pure (obs watch (mkprofLines MID dst schema delim lines gzip skeleton))
   | _ => throw s!"bad op {op}"
+
+/-- composed model first (`"composed": true` in the request); the answer says which path produced it -/
+def handle (j : Json) : Except String Json := do
+  let want := match j.getObjVal? "composed" with | .ok (Json.bool b) => b | _ => false
+  if want then
+    match ← handleComposed j with
+    | some r => return r.setObjVal! "path" (Json.str "composed")
+    | none => pure ()
+  let r ← handleParam j
+  pure (r.setObjVal! "path" (Json.str "param"))
 
 end Verif.C12.Driver
 
